@@ -30,14 +30,15 @@ AUDIT = "Eliot/Audit/C10.lean"
 THEOREMS = [
     "EJ.C10.encode_no_newline", "EJ.C10.encode_is_object", "EJ.C10.encode_valid_utf8",
     "EJ.C10.nonfinite_to_null", "EJ.C10.rich_types_documented",
-    "EJ.C10.decode_encode", "EJ.C10.native_encodes", "EJ.C10.encodes_native",
+    "EJ.C10.decode_encode", "EJ.C10.native_encodes", "EJ.C10.encodes_native", "EJ.C10.encode_valid_json",
+    "EJ.C10.deep_nesting_refused", "EJ.C10.deep_message_no_line",
     "EJ.C10.one_line_per_message", "EJ.C10.no_partial_between_calls", "EJ.C10.bytes_text_same",
     "EJ.C10.line_faithful",
 ]
 GENERATED_OBLIGATIONS = ["Generated.fileDestCall = EJ.stdShape"]
 RULE = ("values = random trees over the JSON-native domain (every C0 control, 0x7f, U+2028/2029, BMP edges, astral "
         "characters, +-2^63, 2^64-1, 2^64, -0.0, subnormals, 1e22, random bit-pattern floats, NaN/inf, empty containers, long "
-        "keys/strings, nesting chains to depth 60 quick / 200 thorough), the documented rich types (Path, date, datetime, "
+        "keys/strings, nesting chains to depth 60 quick / 200 thorough and, around orjson's limit, of depth 253, 254, 255, 300), the documented rich types (Path, date, datetime, "
         "time - exact classes and user subclasses, naive and aware -, set, complex) under three default functions (eliot's json_default; a caller's function chaining to it; a caller's function "
         "that knows only its own type and raises TypeError otherwise - dates/times must still be written, paths/sets/complex are then "
         "out of domain), passed as json_default= or as a deprecated encoder= class, and out-of-domain leaves (bytes, non-str keys, lone surrogates, "
@@ -47,7 +48,8 @@ RULE = ("values = random trees over the JSON-native domain (every C0 control, 0x
 TRUSTED = ["orjson's float printer (the float token handed to the model is orjson's own text for that float) and Python's float parser",
            "CPython's UTF-8 codec as the meaning of bytes<->text (the model has its own UTF-8 codec, compared byte-exactly)",
            "harness translation tree_of(): Python object -> tagged tree (type dispatch mirrors orjson's exact-type rules)"]
-ASSUMPTIONS = ["decode/loads model whitespace-free JSON without the NaN/Infinity literals (what the encoder emits); nesting <= 200",
+ASSUMPTIONS = ["decode/loads model whitespace-free JSON without the NaN/Infinity literals (what the encoder emits)",
+               "orjson's second limit (more than 255 default calls along one path: 'default serializer exceeds recursion limit') is not modelled; generated values stay far below it",
                "float tokens are opaque: FloatCodec (the token is a JSON number with fraction/exponent that scans back to itself) is checked by the model's encoder at run time",
                "timezone offsets of aware datetimes are whole minutes (orjson truncates seconds, isoformat() does not)"]
 EXPLANATION = ("theorems over the executable model of orjson's compact encoder, json.loads and the FileDestination call sequence; "
@@ -242,6 +244,21 @@ def g_chain(rng, prof, depth):
     return v
 
 
+def pure_chain(n, kind, leaf=None):
+    """exactly n nested containers: lists, dicts or alternating"""
+    v = leaf if leaf is not None else {"t": "int", "v": "1"}
+    for i in range(n):
+        if kind == "list" or (kind == "mixed" and i % 2):
+            v = {"t": "list", "tuple": False, "v": [v]}
+        else:
+            v = {"t": "dict", "v": [[{"t": "str", "v": [97]}, v]]}
+    return v
+
+
+# orjson's recursion limit is 254 containers: both sides of it, and well beyond
+LIMIT_DEPTHS = [253, 254, 255, 300]
+
+
 def g_message(rng, prof, top_dict=True):
     """a message dictionary as handed to a destination"""
     if not top_dict:
@@ -398,6 +415,21 @@ def bad_kinds(t, ext):
     elif k == "unsupported":
         out.add("unsupported")
     return out
+
+
+def gdepth(t, ext):
+    """model-free: number of nested containers the encoder meets in this value (a set becomes a list, a complex
+    number a dict, a caller's object whatever its default returns)"""
+    k = t["t"]
+    if k in ("list", "set"):
+        return 1 + max([gdepth(x, ext) for x in t["v"]] or [0])
+    if k == "dict":
+        return 1 + max([gdepth(vv, ext) for _, vv in t["v"]] or [0])
+    if k == "complex":
+        return 1
+    if k == "custom":
+        return gdepth(t["v"], ext) if ext else 0
+    return 0
 
 
 def features(t, depth=0):
@@ -567,13 +599,33 @@ def shrink(tree, ext):
     return best
 
 
-def key_of(sub):
+def missing_zero_after_dot(written, iso):
+    """is `written` the text `iso` with exactly one "0" removed right after the dot?"""
+    if "." not in iso:
+        return False
+    i = iso.index(".") + 1
+    return iso[i:i + 1] == "0" and written == iso[:i] + iso[i + 1:]
+
+
+def key_of(sub, ext=False, why=""):
     """small structural key of a minimised unfaithful value (for KNOWN_FINDINGS matching)"""
+    if "refused by the encoder: depth" in (why or "") and gdepth(sub, ext) >= 255:
+        return {"refused": "depth", "nesting": ">=255"}
     if sub["t"] in ("time", "date") and sub.get("sub"):
         return {"leaf": "subclass of datetime." + (sub["k"] if sub["t"] == "date" else "time")}
     if sub["t"] == "time" and sub.get("tz") is None:
         us = sub["args"][3]
-        return {"leaf": "datetime.time", "microsecond": "10000..99999" if 10000 <= us <= 99999 else "other"}
+        known = False
+        if 10000 <= us <= 99999:
+            # the known deviation and nothing else: the written text is isoformat() minus the zero after the dot
+            try:
+                from eliot.json import _dumps_bytes
+                o = build(sub)
+                written = json.loads(_dumps_bytes(o, default=default_for(ext)).decode("utf-8"))
+                known = isinstance(written, str) and missing_zero_after_dot(written, o.isoformat())
+            except Exception:  # noqa
+                known = False
+        return {"leaf": "datetime.time", "microsecond": "10000..99999" if known else "other"}
     return {"leaf": sub["t"]}
 
 
@@ -585,6 +637,11 @@ def report_unfaithful(ctx, what, tree, ext, found_in):
         ctx.violation(what, found_in)
         return
     extra = None
+    if "refused by the encoder: depth" in why:
+        extra = {"nesting": gdepth(sub, ext), "note": "orjson refuses more than 254 nested containers; the message is not written at all"}
+        ctx.violation("%s [minimised to a single value: %s]" % (what, why), {"kind": "value", "tree": sub, "ext": ext},
+                      key=key_of(sub, ext, why), extra=extra)
+        return
     try:
         from eliot.json import _dumps_bytes
         o = build(sub)
@@ -592,7 +649,7 @@ def report_unfaithful(ctx, what, tree, ext, found_in):
                  "documented_form": repr(expected(o, ext))[:300]}
     except Exception:  # noqa
         pass
-    ctx.violation("%s [minimised to a single value: %s]" % (what, why), {"kind": "value", "tree": sub, "ext": ext}, key=key_of(sub), extra=extra)
+    ctx.violation("%s [minimised to a single value: %s]" % (what, why), {"kind": "value", "tree": sub, "ext": ext}, key=key_of(sub, ext, why), extra=extra)
 
 
 # ---- expected (documented) form, model-free ------------------------------------------------------
@@ -682,7 +739,7 @@ ERRKIND = [("Integer exceeds 64-bit range", "intRange"), ("surrogates not allowe
            ("Type is not JSON serializable", "unsupported"), ("must not have tzinfo", "timeTz"), ("Recursion limit", "depth")]
 MODEL_ERR = {"EJ.EncErr.intRange": "intRange", "EJ.EncErr.surrogate": "surrogate", "EJ.EncErr.nonStrKey": "nonStrKey",
              "EJ.EncErr.unsupported": "unsupported", "EJ.EncErr.timeTz": "timeTz", "EJ.EncErr.badFloat": "badFloat",
-             "EJ.EncErr.notUtf8": "notUtf8"}
+             "EJ.EncErr.notUtf8": "notUtf8", "EJ.EncErr.depth": "depth"}
 
 
 def default_for(ext):
@@ -874,7 +931,8 @@ def oracle_direct(ctx, case, msgs_obj, bad, ext, text, calls, outcomes, slices):
         sub = dict(case, only=i, mode=mode)
         if "raised" in out:
             if not bad[i]:
-                ctx.violation("%s file: a message of the documented domain was refused (%s %s)" % (mode, out["raised"], out.get("kind")), sub)
+                report_unfaithful(ctx, "%s file: a message of the documented domain was refused (%s %s)" % (mode, out["raised"], out.get("kind")),
+                                  case["msgs"][i], ext, sub)
                 ok = False
             if delta:
                 ctx.violation("%s file: a refused message still reached the file: %s" % (mode, [c[0] for c in delta]), sub)
@@ -1077,6 +1135,8 @@ def check_repo():
 
 
 def run(ctx):
+    import sys
+    sys.setrecursionlimit(max(sys.getrecursionlimit(), 20000))     # the harness's own walks over 300-deep trees
     ctx.extra["eliot_file"] = check_repo()
     rng = ctx.rng("gen")
     nvalues = ctx.budget(2000, 100000)
@@ -1097,6 +1157,16 @@ def run(ctx):
         else:
             g = g_value(rng, prof, rng.choice([1, 2, 3, 4]))
         values.append((g, prof["ext"], pname))
+    for n in LIMIT_DEPTHS:
+        values.append((pure_chain(n, "list"), False, "native"))
+        values.append((pure_chain(n, "dict"), "own", "native"))
+        values.append((pure_chain(n, "mixed", {"t": "list", "tuple": False, "v": []}), True, "native"))
+        # the list a set becomes, the dict a complex number becomes and what a caller's default returns count as well
+        values.append((pure_chain(n - 1, "mixed", {"t": "set", "v": [{"t": "int", "v": "7"}]}), False, "rich"))
+        values.append((pure_chain(n - 1, "list", {"t": "complex", "re": "0x1.0p+0", "im": "-0x0.0p+0"}), True, "rich"))
+        values.append((pure_chain(n - 2, "dict", {"t": "custom", "v": pure_chain(2, "list")}), True, "rich"))
+        pname, prof = pick_profile(rng)
+        values.append((g_chain(rng, prof, n), prof["ext"], pname))
     nloads = 0
     for g, ext, pname in values:
         obj = build(g)
@@ -1112,7 +1182,8 @@ def run(ctx):
         why = value_line_complaint(g, ext)
         if why:
             report_unfaithful(ctx, "encoder: %s" % why, g, ext, case)
-            ctx.count("tie-skipped:oracle-failed")
+        if why and "refused by the encoder" not in why:
+            ctx.count("tie-skipped:oracle-failed")      # the written text deviates: the model keeps the documented form
         else:
             reqs.append(dict(mreq(ext), op="dumps", v=tree_of(obj)))
             after.append(("dumps", (case, real, bad)))
@@ -1156,6 +1227,10 @@ def run(ctx):
         msgs = [g_message(grng, prof, top_dict=grng.random() < 0.93) for _ in range(n)]
         if gi % 9 == 0:
             msgs.append({"t": "dict", "v": [[{"t": "str", "v": [100]}, g_chain(grng, prof, grng.choice([5, 40, maxchain - 2]))]]})
+        if gi % 40 == 7:
+            # a message is one more container around its fields: 253 below it is the last depth that is written
+            at = grng.randint(0, len(msgs))
+            msgs.insert(at, {"t": "dict", "v": [[{"t": "str", "v": [100]}, pure_chain(grng.choice([252, 253, 254, 299]), grng.choice(["list", "dict", "mixed"]))]]})
         via = "encoder" if grng.random() < 0.25 else "default"
         case = {"kind": "file", "msgs": msgs, "ext": ext, "via": via}
         objs = [build(m) for m in msgs]
@@ -1321,6 +1396,8 @@ def real_files(ctx):
 # ---- replay --------------------------------------------------------------------------------------
 
 def replay(ctx, obj):
+    import sys
+    sys.setrecursionlimit(max(sys.getrecursionlimit(), 20000))
     check_repo()
     case = obj.get("case") or {}
     kind = case.get("kind")
